@@ -1948,6 +1948,15 @@ impl<T: PackedInt> IntVec<T> {
         buffer[..available].copy_from_slice(&data[byte_offset..byte_offset + available]);
 
         let value = u64::from_le_bytes(buffer);
+
+        if bit_in_byte + bits as usize > 64 {
+            // the field straddles 9 bytes (57..64 bits at an unaligned offset): take the missing
+            // high bits from the next byte, as write_bits stores them
+            let low = value >> bit_in_byte;
+            let next = *data.get(byte_offset + 8).unwrap_or(&0) as u64;
+            let combined = low | (next << (64 - bit_in_byte));
+            return Ok(if bits >= 64 { combined } else { combined & ((1u64 << bits) - 1) });
+        }
         
         // Use BMI2 BEXTR for optimal bit extraction when available
         Ok(BitOps::extract_bits(value, bit_in_byte as u8, bits))
